@@ -8,15 +8,15 @@ enumeration of command sequences), and the core op lines:
   push / pop       → ok
   note <anything>  → the line itself
 -/
-import OG.Meta.Wire
+import OG.Meta.Wire2
 import OG.C16.WF
 
 namespace OG.Meta
 open OG.Meta.Wire
 
 structure Sess where
-  cur : Data := Data.init
-  stack : List Data := []
+  cur : Data2 := Data2.init
+  stack : List Data2 := []
 
 def showResult : Result → String
   | .ok => "ok"
@@ -28,19 +28,19 @@ def words (line : String) : List String :=
 
 def coreStep (s : Sess) (toks : List String) (line : String) : Option (Sess × String) :=
   match toks with
-  | ["reset"] => some ({ s with cur := Data.init }, "ok")
+  | ["reset"] => some ({ s with cur := Data2.init }, "ok")
   | "cmd" :: rest =>
-    match parseCmd rest with
+    match parseCmd2 rest with
     | none => none
     | some c =>
-      let (d, r) := apply s.cur c
+      let (d, r) := apply2 s.cur c
       some ({ s with cur := d }, showResult r)
   | "chk" :: rest =>
-    match parseData rest with
+    match parseData2 rest with
     | none => none
     | some i =>
-      let v := OG.C16.wfViolations i
-      let w := whereDiffer s.cur i
+      let v := OG.C16.wfViolations i.base
+      let w := whereDiffer2 s.cur i
       some (s, "wf " ++ (if v.isEmpty then "ok" else ",".intercalate v) ++ " " ++ (if w = "" then "same" else "differs:" ++ w))
   | ["push"] => some ({ s with stack := s.cur :: s.stack }, "ok")
   | ["pop"] =>
